@@ -1,6 +1,6 @@
 (* C07 -- property theorems only.  Proofs live in C07/Proofs*.v. *)
 From Coq Require Import NArith List Bool Arith.
-From DV Require Import Base.Outcome Base.Bytes C07.Gen C07.Model C07.Proofs C07.Proofs2 C07.Proofs3 C07.Proofs4 C07.Proofs5 C07.Proofs6 C07.Proofs7 C07.Proofs8 C07.Proofs9 C07.Proofs10 C07.Proofs11 C07.Proofs12.
+From DV Require Import Base.Outcome Base.Bytes C07.Gen C07.Model C07.Proofs C07.Proofs2 C07.Proofs3 C07.Proofs4 C07.Proofs5 C07.Proofs6 C07.Proofs7 C07.Proofs8 C07.Proofs9 C07.Proofs10 C07.Proofs11 C07.Proofs12 C07.Proofs13 C07.Proofs14.
 Import ListNotations.
 Local Open Scope N_scope.
 
@@ -575,3 +575,23 @@ Theorem C07_scan_octets_value : forall s p q syms octs d t r s2,
   scan_octets s = Ok (r, s2) -> r = p ++ octs.
 Proof. exact scan_octets_value. Qed.
 Print Assumptions C07_scan_octets_value.
+
+Theorem C07_convert_token_id_value : forall s syms octs d t r s2,
+  scat s = CUnq -> Toks false (rest s) syms (d :: t) -> octets_of syms octs ->
+  convert_token unit id_process id_tail tt s = Ok (r, s2) -> r = octs.
+Proof. exact convert_token_id_value. Qed.
+Print Assumptions C07_convert_token_id_value.
+
+Theorem C07_scan_octets_quoted_plain_value : forall s tok t r s2,
+  scat s = CQuo -> rest s = tok ++ asc_q_end :: t -> plain_q tok ->
+  scan_octets s = Ok (r, s2) -> r = tok.
+Proof. exact scan_octets_quoted_plain_value. Qed.
+Print Assumptions C07_scan_octets_quoted_plain_value.
+
+Theorem C07_scan_octets_quoted_value : forall s p q syms octs l' r s2,
+  scat s = CQuo -> rest s = p ++ q -> plain_q p ->
+  (exists c q', q = c :: q' /\ asc_q_ok c = false /\ c <> asc_q_end) ->
+  Toks true q syms l' -> octets_of syms octs ->
+  scan_octets s = Ok (r, s2) -> r = p ++ octs.
+Proof. exact scan_octets_quoted_value. Qed.
+Print Assumptions C07_scan_octets_quoted_value.
